@@ -29,6 +29,8 @@ DOCS = [
             for i in range(1, 19)),
     # a short chapter file that takes its glossary from a database much longer than itself
     '\\LTinput{big.glsdefs}\n\\Gls{ylab} is w1z. \\GLS{ylab} w2z \\Glspl{ylab}, \\gls{ylab} w3z \\Glsdesc{ylab}\n',
+    # a macro with a default value that holds a long run of white space, used without the option in the last line
+    '\\newcommand{\\yack}[1][Jane\n            Doe]{Thanks to #1 and w1z.}\nText w2z here.\n\\yack\n',
 ]
 DOC_FILES = {6: {'big.glsdefs': '%% glossary database written by LaTeX\n' + '%% padding line of the database\n' * 60
                  + '\\gls@defglossaryentry{ylab}%\n{%\nname={yglsname},%\ntext={yglstext yglstwo},%\n'
